@@ -67,9 +67,12 @@ type Explorer struct {
 	Transitions int64 // scheduling steps executed
 	States      int64 // new DFS-tree nodes visited (steps beyond the replayed prefix)
 	Divergences []string
-	Horizons    int64
-	Capped      bool
-	MaxDepth    int
+	// Recovered lists replay deviations that did not persist when the same
+	// prefix was replayed again.
+	Recovered []string
+	Horizons  int64
+	Capped    bool
+	MaxDepth  int
 }
 
 type item struct {
@@ -90,6 +93,16 @@ func (e *Explorer) Explore() {
 		x := e.Run(it.prefix, it.expect)
 		isRoot := first
 		first = false
+		// A replayed prefix must reproduce the recorded enabled sets.  What is
+		// left of run-time nondeterminism (a goroutine woken in the middle of a
+		// scheduler step observes its wake-up a little earlier or later) can make
+		// one replay deviate; the same prefix is then replayed again, and only a
+		// deviation that persists is reported (as a harness error, never as a
+		// verdict on the code).
+		for attempt := 0; x.Diverged != "" && attempt < 3; attempt++ {
+			e.Recovered = append(e.Recovered, x.Diverged)
+			x = e.Run(it.prefix, it.expect)
+		}
 		if x.Diverged != "" {
 			e.Divergences = append(e.Divergences, x.Diverged)
 			continue
